@@ -25,6 +25,29 @@ def special_payloads(bundle, rnd):
             out.append(pl)
     # payloads that are themselves complete, checksum-consistent frames (a frame inside a frame)
     out += [pl for pl in framelike_payloads(rnd) if len(pl) >= 8]
+    out += crc_targeted_payloads(bundle, rnd)
+    return out
+
+
+def crc_targeted_payloads(bundle, rnd):
+    """
+    Payloads whose FRAME has chosen CRC-24Q bytes (zero, leading zeros, all ones, sync / foreign
+    header bytes, CR LF): probability 2^-16 .. 2^-24 each for random payloads.  The last three
+    payload bytes are solved for the target (gen_crc.solve_tail); the carriers are an unknown
+    message type (stub) and 1005, whose last bytes are the low bits of DF027 (any value decodes).
+    """
+    from . import gen_crc
+
+    targets = [0x000000, 0x0000A7, 0x00005A, 0x00D300, 0xD30000, 0xD30001, 0xFFFFFF, 0xB56200, 0x244700, 0x0D0A00, 0x000D0A, 0x0000D3]
+    carriers = [bytes([0x7D, 0x10]) + bytes(rnd.randrange(256) for _ in range(rnd.randint(6, 30)))]
+    p1005, _ = gen_messages.build("1005", bundle, rnd, values="random")
+    if p1005:
+        carriers.append(p1005)
+    out = []
+    for i, tg in enumerate(targets):
+        pl = carriers[i % len(carriers)]
+        hdr = b"\xd3" + len(pl).to_bytes(2, "big")
+        out.append(pl[:-3] + gen_crc.solve_tail(hdr + pl[:-3], tg))
     return out
 
 
@@ -77,3 +100,14 @@ def framelike_payloads(rnd):
 
 def log_files():
     return sorted(glob.glob(os.path.join(REPO, "tests", "*.log")) + glob.glob(os.path.join(REPO, "tests", "*.bin")))
+
+
+def crc_target_stream(bundle, rnd, pool):
+    """every CRC-targeted frame, each followed by an ordinary frame -> (bytes, [frame bytes])"""
+    from .decode_rec import frame_of
+
+    frames = []
+    for pl in crc_targeted_payloads(bundle, rnd):
+        frames.append(frame_of(pl))
+        frames.append(frame_of(rnd.choice(pool[:20])))
+    return b"".join(frames), frames
